@@ -22,6 +22,7 @@ type hCfg struct {
 	MaxSess      int  // live sessions per history
 	Steps        int  // operations per history (after association setup)
 	PChoose      int  // percent of uplink PDRs with CHOOSE F-TEID
+	PChooseDL    int  // percent of downlink (core-side) PDRs that also carry a CHOOSE F-TEID (N9-style); response checks only
 	PAlloc       int  // percent of sessions asking for UE IP allocation (agent must have it enabled)
 	PSDF         int  // percent of PDRs with an SDF filter
 	Canonical    bool // only `from <remote> to assigned` flow descriptions
@@ -213,6 +214,9 @@ func (h *hRunner) genSession(assoc int) (*vEstSpec, *mSession, map[uint16]*mFlow
 		}
 		if rng.Intn(100) < c.PChoose {
 			up.Choose = true
+		}
+		if c.PChooseDL > 0 && rng.Intn(100) < c.PChooseDL {
+			dn.FTEID, dn.Choose = true, true
 		}
 		if alloc {
 			up.UEFlag, up.UEIP = 0x04, ""
